@@ -1,0 +1,28 @@
+"""
+Verification hooks (add-only, inert by default).
+
+`point(name)` marks a linearization point. It does nothing unless the environment variable ADSG_CORE_VERIF is set to
+"1" AND a director has been installed by a verification harness via `install(director)`; then it calls
+`director(name)` (which may record the event and/or block until the harness releases the calling thread).
+"""
+import os
+
+__all__ = ['point', 'install', 'enabled']
+
+_ENABLED = os.environ.get('ADSG_CORE_VERIF') == '1'
+_director = None
+
+
+def enabled() -> bool:
+    return _ENABLED and _director is not None
+
+
+def install(director):
+    """Install (or remove, with None) the director. Only has an effect if ADSG_CORE_VERIF=1."""
+    global _director
+    _director = director if _ENABLED else None
+
+
+def point(name: str, **info):
+    if _director is not None:
+        _director(name, **info)
